@@ -93,3 +93,91 @@ impl UnsignedTransportInfo {
         ensures final(self).timestamp == old(self).timestamp
     { unimplemented!() }
 }
+
+// ---- address-book actor: contract-only store, reply port, watchers -----------------------------------------------------------
+pub struct SqliteError { pub e: u8 }
+pub struct ActorProcessingErr { pub e: u8 }
+impl vstd::std_specs::convert::FromSpecImpl<SqliteError> for ActorProcessingErr {
+    open spec fn obeys_from_spec() -> bool { true }
+    open spec fn from_spec(e: SqliteError) -> Self { ActorProcessingErr { e: e.e } }
+}
+impl From<SqliteError> for ActorProcessingErr { fn from(e: SqliteError) -> (r: Self) { ActorProcessingErr { e: e.e } } }
+pub struct Topic { pub t: [u8; 32] }
+pub struct WatchedNodeInfo { pub w: u8 }
+pub struct WatchedTopic { pub w: u8 }
+pub struct WatchedNodeTopics { pub w: u8 }
+pub struct WatcherSet<K, W> { pub g: Ghost<Option<(K, W)>> }
+impl<K, W> WatcherSet<K, W> {
+    // informs subscribers (opaque; not part of the property)
+    #[verifier::external_body]
+    pub fn update<V>(&mut self, key: &K, value: V) { unimplemented!() }
+}
+// reply port: ghost record of what was answered
+pub struct RpcReplyPort<T> { pub sent: Ghost<Option<T>> }
+impl<T> RpcReplyPort<T> {
+    #[verifier::external_body]
+    pub fn send(&mut self, v: T) -> (r: Result<(), u8>)
+        ensures final(self).sent@ == Some(v)
+    { unimplemented!() }
+}
+impl Clone for NodeInfo {
+    #[verifier::external_body]
+    fn clone(&self) -> (r: Self) ensures r == *self { unimplemented!() }
+}
+impl NodeMetrics {
+    #[verifier::external_body]
+    pub fn default() -> (r: Self) { unimplemented!() }
+}
+pub struct TransactionPermit { pub p: u8 }
+pub struct SqliteStore { pub handle: u64 }
+impl SqliteStore {
+    pub uninterp spec fn committed(&self) -> Map<NodeId, NodeInfo>;   // durable address book
+    pub uninterp spec fn txview(&self) -> Map<NodeId, NodeInfo>;      // inside the open transaction
+    pub uninterp spec fn in_tx(&self) -> bool;
+    #[verifier::external_body]
+    pub fn begin(&mut self) -> (r: Result<TransactionPermit, SqliteError>)
+        requires !old(self).in_tx(),
+        ensures final(self).committed() == old(self).committed(),
+            r is Ok ==> final(self).in_tx() && final(self).txview() == old(self).committed(),
+            r is Err ==> !final(self).in_tx(),
+    { unimplemented!() }
+    #[verifier::external_body]
+    pub fn commit(&mut self, permit: TransactionPermit) -> (r: Result<(), SqliteError>)
+        requires old(self).in_tx(),
+        ensures !final(self).in_tx(),
+            r is Ok ==> final(self).committed() == old(self).txview(),
+            r is Err ==> final(self).committed() == old(self).committed(),
+    { unimplemented!() }
+    // AddressBookStore::insert_node_info inside a transaction: upsert under the info's node id; true iff newly inserted
+    #[verifier::external_body]
+    pub fn insert_node_info(&mut self, info: NodeInfo) -> (r: Result<bool, SqliteError>)
+        requires old(self).in_tx(),
+        ensures final(self).in_tx(), final(self).committed() == old(self).committed(),
+            r is Ok ==> final(self).txview() == old(self).txview().insert(info.node_id, info),
+            r is Err ==> final(self).txview() == old(self).txview(),
+    { unimplemented!() }
+}
+// read-only queries of the address book store as trait methods (so that both `store.node_info(..)` and the UFCS form
+// `AddressBookStore::<NodeId, NodeInfo>::node_info(&store, ..)` used elsewhere in actor.rs resolve)
+pub trait AddressBookStore<ID, N> {
+    spec fn book(&self) -> Map<ID, N>;
+    spec fn busy(&self) -> bool;
+    fn node_info(&self, id: &ID) -> (r: Result<Option<N>, SqliteError>)
+        requires !self.busy(),
+        ensures r is Ok ==> r->Ok_0 == (if self.book().contains_key(*id) { Some(self.book()[*id]) } else { None::<N> });
+}
+impl AddressBookStore<NodeId, NodeInfo> for SqliteStore {
+    open spec fn book(&self) -> Map<NodeId, NodeInfo> { self.committed() }
+    open spec fn busy(&self) -> bool { self.in_tx() }
+    #[verifier::external_body]
+    fn node_info(&self, id: &NodeId) -> (r: Result<Option<NodeInfo>, SqliteError>) { unimplemented!() }
+}
+impl NodeInfo {
+    // NodeInfo::is_stale: derived from the local connection metrics (opaque here: any value)
+    #[verifier::external_body]
+    pub fn is_stale(&self) -> (r: bool) { unimplemented!() }
+}
+// the stored transport record of a node, if any
+pub open spec fn stored_transports(m: Map<NodeId, NodeInfo>, id: NodeId) -> Option<TransportInfo> {
+    if m.contains_key(id) { m[id].transports } else { None }
+}
